@@ -79,10 +79,15 @@ struct Cf {
 }
 
 fn session(c: Cf, queue_num: u64) -> Conn {
+    session_pf(c, queue_num, ops::ALL_PF)
+}
+
+/// Like `session`, acknowledging only `pf_set` (REPLY_ACK according to the configuration).
+fn session_pf(c: Cf, queue_num: u64, pf_set: u64) -> Conn {
     let mut script = util::full_script();
     script.queue_num = queue_num;
     let mut cn = util::conn(script, queue_num.max(8));
-    let pf = if c.reply_ack { ops::ALL_PF } else { ops::ALL_PF & !spec::PF_REPLY_ACK };
+    let pf = if c.reply_ack { pf_set | spec::PF_REPLY_ACK } else { pf_set & !spec::PF_REPLY_ACK };
     util::negotiate(&mut cn.fe, spec::VIRTIO_F_PROTOCOL_FEATURES, Some(pf)).expect("negotiate");
     if c.need_reply {
         cn.fe.set_hdr_flags(VhostUserHeaderFlag::NEED_REPLY);
@@ -109,7 +114,21 @@ fn call_case(cfg: &Cfg, cn: &mut Conn, c: Cf, op: &FeOp, kinds: u64, case: &str)
             let l = RefCell::new(Fwd(cn.fe.clone()));
             op.exec_vb(&l, &mut lent).unwrap_or_else(|| op.exec(&mut cn.fe, &mut lent))
         }
-        _ => op.exec(&mut cn.fe, &mut lent),
+        _ => {
+            let peer = util::PeerKind::Served { tid: cn.server_tid.load(std::sync::atomic::Ordering::SeqCst), fd: cn.server_fd };
+            let (res, blocked) = util::exec_bounded(&mut cn.fe, op, &mut lent, peer);
+            if blocked {
+                report::violation(&format!("C02:{}:call-never-returns", op.name()), jo! {"call" => op.j(), "cfg" => format!("{c:?}"), "certificate" => "caller parked in recvmsg, nothing queued; server thread parked in recvmsg with nothing queued (or gone)"}, cfg.replay(case));
+                return false;
+            }
+            match res {
+                Ok(o) => o,
+                Err(p) => {
+                    report::violation(&format!("C02:{}:panic", op.name()), jo! {"panic" => p.msg, "at" => p.location}, cfg.replay(case));
+                    return false;
+                }
+            }
+        }
     };
     let kind = op.reply_kind(true);
     let eff_reply_ack = if let FeOp::SetProtocolFeatures(v) = op { v & spec::PF_REPLY_ACK != 0 } else { c.reply_ack };
@@ -257,6 +276,52 @@ fn accepted_calls(cfg: &Cfg, rng: &mut Rng) {
         report::count("sessions", 1);
         if let Some(bad) = results.iter().find(|r| *r != "Ok" && !r.contains("Disconnected") && !r.contains("PartialMessage")) {
             report::observe("server-loop-ended-with", J::S(bad.clone()));
+        }
+    }
+}
+
+/// "After whatever negotiation the operation requires": each feature-gated operation is issued on
+/// a session that acknowledged exactly its own protocol-feature bit (must reach the handler), and
+/// on one that acknowledged every bit except its own (refused locally, nothing reaches the server).
+fn minimal_negotiation(cfg: &Cfg, rng: &mut Rng) {
+    let mut idx = 0u64;
+    for kind in 0..ops::N_OP_KINDS {
+        for rep in 0..cfg.pick(2, 12) {
+            let op = ops::rand_op(rng, 256, Some(kind));
+            let Some(bit) = op.gate_pf() else { break };
+            if op.locally_invalid(256) {
+                continue;
+            }
+            idx += 1;
+            if !cfg.mine(idx) {
+                continue;
+            }
+            let c = Cf { need_reply: rep % 2 == 0, reply_ack: rep % 4 < 2, adapter: 0 };
+            let case = format!("minimal:{idx}");
+            // exactly the required bit
+            let mut cn = session_pf(c, 256, bit);
+            report::count("minimal.only-own-bit", 1);
+            call_case(cfg, &mut cn, c, &op, 0, &case);
+            let _ = cn.finish();
+            // everything but the required bit
+            let mut cn = session_pf(c, 256, ops::ALL_PF & !bit);
+            let before = log_len(&cn);
+            let mut lent = Lent::default();
+            let out = op.exec(&mut cn.fe, &mut lent);
+            let barrier = cn.fe.get_features();
+            let mut log: Vec<Call> = cn.be.lock().unwrap().log[before..].to_vec();
+            if log.last().map(|c| c.method) == Some("get_features") {
+                log.pop();
+            }
+            report::eval(1);
+            report::count("minimal.all-but-own-bit", 1);
+            report::distinct_str(&format!("minimal:{}:{}:{}", op.name(), c.need_reply, c.reply_ack));
+            if out.ok || !log.is_empty() || barrier.is_err() {
+                report::violation(&format!("C02:{}:ungated-feature:{}", op.name(), if !log.is_empty() { "reached-the-handler" } else if out.ok { "call-succeeded" } else { "session-broken" }),
+                    jo! {"op" => op.j(), "acknowledged_protocol_features" => J::x64(ops::ALL_PF & !bit), "required_bit" => J::x64(bit), "result" => out.j(),
+                    "handler_log" => log.iter().map(|c| c.j()).collect::<Vec<J>>(), "barrier" => format!("{barrier:?}")}, cfg.replay(&case));
+            }
+            let _ = cn.finish();
         }
     }
 }
@@ -444,5 +509,8 @@ pub fn run(cfg: &Cfg) {
     }
     if part.is_empty() || part == "all" || part == "rejected" {
         rejected_calls(&c, &mut rng);
+    }
+    if part.is_empty() || part == "all" || part == "minimal" {
+        minimal_negotiation(&c, &mut rng);
     }
 }
